@@ -5,7 +5,7 @@ from ..model import FuncInfo, AnalysisError
 from ..engine import Engine, V, NOCONST
 from ..tags import TagDomain
 from ..taint import TaintDomain, is_raw
-from .. import api, astutil
+from .. import api, astutil, guards
 from .common import site, methods_of, DATA_METHODS
 
 LABEL_NAMES = ('y', 'chunks', 'y_valid')
@@ -74,7 +74,12 @@ def rule_taint(repo, rep, labels=True):
                     if n in (1, 30) else None)
       bad = [(t, s) for (t, s) in dom.check_input_returns
              if 'valid' not in t or 'conv' in t or is_raw(t)]
-      if bad:
+      if bad and getattr(eng, 'depth_cuts', 0) and not bad[0][0]:
+        # nothing is known about the value: a callee on this chain was not
+        # analysed (call depth cap), so nothing is concluded
+        rep.unknown(Rb, key, bad[0][1], 'the validators are beyond the call '
+                    'depth analysed from this entry point')
+      elif bad:
         rep.refuted(Rb, key, bad[0][1],
                     'check_input can return data that did not pass the strict '
                     'validation (tags %s)' % sorted(map(str, bad[0][0])))
@@ -183,6 +188,13 @@ def rule_tuples_shape(repo, rep):
                'y is not None', 'input_data.shape[1] == 2',
                'tuple_size == 2'}
     extra = conds - allowed
+    # a condition held in a boolean temporary counts as its definition
+    for x in list(extra):
+      if x.isidentifier():
+        dfn = [v for (n_, v) in guards.assignments(f.node, x)
+               if v is not None]
+        if len(dfn) == 1 and astutil.norm_atom(dfn[0]) in allowed:
+          extra.discard(x)
     if extra:
       rep.refuted(Rl, '_util.check_input', site(f, c),
                   'label check only performed under extra condition(s) %s'
@@ -251,32 +263,40 @@ def rule_n_components(repo, rep):
       else:
         rep.refuted(R, cname + '.fit', site(f, node),
                     'a path through fit never range-checks n_components')
+  # the range check itself, interpreted over the order partition of
+  # n_components relative to 1 and n_features (exact: every comparison of the
+  # function relates n_components, n_features, 0 and 1 only)
   f = repo.get_func('_util._check_n_components')
-  rets = [n for n in ast.walk(f.node) if isinstance(n, ast.Return)]
+  rep.analysed(f)
   params = f.params()
   if len(params) != 2:
     rep.unknown(Rb, '_util._check_n_components', site(f), 'unexpected params')
     return
   nf, nc = params
-  status, detail = 'derived', ''
-  for r in rets:
-    conds = set(astutil.path_condition(f.node, r))
-    val = ast.unparse(r.value) if r.value is not None else 'None'
-    if val == nf:
-      if '%s is None' % nc not in conds:
-        status, detail = 'refuted', ('returns %s under %s, not only when %s '
-                                     'is None' % (nf, sorted(conds), nc))
-    elif val == nc:
-      lower = {'%s > 0' % nc, '%s >= 1' % nc}
-      upper = {'%s <= %s' % tuple(sorted([nc, nf])) if nc < nf else
-               '%s >= %s' % (nf, nc), '%s <= %s' % (nc, nf)}
-      if not (conds & lower) or not (conds & upper):
-        status, detail = 'refuted', (
-            'returns %s under %s: the range 1 <= %s <= %s is not enforced'
-            % (nc, sorted(conds), nc, nf))
-    else:
-      status, detail = 'unknown', 'unrecognised return %s' % val
-  rep.add(Rb, '_util._check_n_components', status, site(f), detail)
+  from ..guardeval import run_function, Undecided, only_compares
+  if not only_compares(f.node, {nf, nc}, {0, 1}):
+    rep.unknown(Rb, '_util._check_n_components', site(f), 'the function '
+                'compares other quantities than n_components, n_features, 0 '
+                'and 1: the order partition is not exact for it')
+    return
+  D = 5
+  for val, want in ((None, ('return', D)), (-1, 'ValueError'),
+                    (0, 'ValueError'), (1, ('return', 1)), (3, ('return', 3)),
+                    (D, ('return', D)), (D + 1, 'ValueError')):
+    key = '_util._check_n_components:n_components=%s' % (
+        'None' if val is None else '<1' if val < 1 else 'n_features+1'
+        if val > D else 'n_features' if val == D else '1' if val == 1
+        else 'inside')
+    if val == -1:
+      key += '(negative)'
+    try:
+      got = run_function(repo, f, {nf: D, nc: val})
+    except Undecided as u:
+      rep.unknown(Rb, key, site(f), 'outside the interpreted forms: %s' % u)
+      continue
+    rep.add(Rb, key, 'derived' if got == want else 'refuted', site(f),
+            '' if got == want else 'with n_features = %d the function gives '
+            '%s, documented %s' % (D, got, want))
 
 
 def rule_calibration_first(repo, rep):
